@@ -77,3 +77,9 @@ CASES += [
     dict(id='c06-eq-std-array-sort-range-by-next', prop='C06', file=T, expect=None,
          old="      std::sort( mDestVar.begin(), mDestVar.begin() + mIndex);", new="      std::sort( mDestVar.begin(), std::next( mDestVar.begin(), mIndex));"),
 ]
+
+CASES += [
+    dict(id='c06-contains-sorts-destination', prop='C06', file=CA, expect='R2',
+         old="      return mDestCont.find( value) != mDestCont.end();\n   } // ContainerAdapter< std::set< T>>::contains",
+         new="      mDestCont.erase( mDestCont.begin(), mDestCont.begin());\n      return mDestCont.find( value) != mDestCont.end();\n   } // ContainerAdapter< std::set< T>>::contains"),
+]
